@@ -434,6 +434,9 @@ enum Case {
     /// `inner` with generated constructor arguments of the reporter (service name, Datadog
     /// resource / type, OpenTelemetry span kind and scope) instead of the default ones
     With { cfg: RepCfg, inner: Box<Case> },
+    /// Jaeger: the agent starts listening only after the reporter was created and its first
+    /// batches were reported (`inner` is a Jaeger or JaegerPlan case)
+    LateAgent { inner: Box<Case> },
 }
 
 struct Env {
@@ -449,8 +452,18 @@ fn run_case(env: &Env, c: &Case) -> Outcome {
         set_cfg(&RepCfg::default());
         return o;
     }
+    if let Case::LateAgent { inner } = c {
+        return match &**inner {
+            Case::Jaeger { batch } => run_jaeger_late_agent(&[], batch, "C19"),
+            Case::JaegerPlan { plan, prior } => {
+                let pr: Vec<Vec<Rec>> = prior.iter().map(realise).collect();
+                run_jaeger_late_agent(&pr, &realise(plan), "C20")
+            }
+            other => run_case(env, other),
+        };
+    }
     match c {
-        Case::With { .. } => unreachable!(),
+        Case::With { .. } | Case::LateAgent { .. } => unreachable!(),
         Case::Jaeger { batch } => run_jaeger(&env.udp, batch, "C19"),
         Case::JaegerPlan { plan, prior } => {
             let pr: Vec<Vec<Rec>> = prior.iter().map(realise).collect();
@@ -500,8 +513,16 @@ fn case_strategy(variant: &str) -> BoxedStrategy<Case> {
         1 => Just("服务名称-サービス-😀".to_string()),
     ];
     let rc = (text.clone(), text.clone(), text.clone(), 0u8..5, text).prop_map(|(service, resource, ty, kind, scope)| RepCfg { service, resource, ty, kind, scope });
-    (case_strategy_inner(variant), proptest::bool::weighted(0.4), rc)
-        .prop_map(|(c, with, cfg)| if with { Case::With { cfg, inner: Box::new(c) } } else { c })
+    let jaeger = variant == "jaeger" || variant == "plan";
+    (case_strategy_inner(variant), proptest::bool::weighted(0.4), rc, proptest::bool::weighted(0.12))
+        .prop_map(move |(c, with, cfg, late)| {
+            let c = if late && jaeger { Case::LateAgent { inner: Box::new(c) } } else { c };
+            if with {
+                Case::With { cfg, inner: Box::new(c) }
+            } else {
+                c
+            }
+        })
         .boxed()
 }
 
@@ -564,8 +585,11 @@ fn nontrivial(c: &Case) -> bool {
         set_cfg(&RepCfg::default());
         return r;
     }
+    if let Case::LateAgent { inner } = c {
+        return nontrivial(inner);
+    }
     match c {
-        Case::With { .. } => unreachable!(),
+        Case::With { .. } | Case::LateAgent { .. } => unreachable!(),
         Case::Jaeger { batch } | Case::Datadog { batch } | Case::Otel { batch } => {
             batch.len() >= 2
                 && batch.iter().any(|r| r.span >> 63 == 1 || r.trace_hi >> 63 == 1 || r.parent >> 63 == 1 || r.trace_lo >> 63 == 1)
@@ -587,8 +611,11 @@ fn label(c: &Case) -> String {
         set_cfg(&RepCfg::default());
         return r;
     }
+    if let Case::LateAgent { inner } = c {
+        return format!("{} (agent starts listening late)", label(inner));
+    }
     match c {
-        Case::With { .. } => unreachable!(),
+        Case::With { .. } | Case::LateAgent { .. } => unreachable!(),
         Case::Jaeger { batch } => format!("jaeger batch of {}", bucket(batch.len())),
         Case::Datadog { batch } => format!("datadog batch of {}", bucket(batch.len())),
         Case::Otel { batch } => format!("otel batch of {}", bucket(batch.len())),
